@@ -47,6 +47,8 @@ type nspec struct {
 	Alias bool `json:"alias,omitempty"`
 	// Fork: the redirect is a FORK with a redirect modifier (brigadier's "execute as ..." style) instead of a plain one.
 	Fork bool `json:"fork,omitempty"`
+	// NoExec: the node has no executor of its own (a pure group node); it is then recognised by name + parent.
+	NoExec bool `json:"noexec,omitempty"`
 }
 
 // Prior: what happened on the SAME Proxy before the merge that is checked.
@@ -72,6 +74,9 @@ func (c caseSpec) String() string {
 		fmt.Fprintf(&sb, "%d:%s%s/%s", i, n.Kind, n.Name, n.Req)
 		if n.Alias {
 			sb.WriteString("=alias(0)")
+		}
+		if n.NoExec {
+			sb.WriteString("(group)")
 		}
 		if n.Parent >= 0 {
 			fmt.Fprintf(&sb, "^%d", n.Parent)
@@ -347,7 +352,10 @@ func buildProxyTree(root *brigodier.RootCommandNode, s []nspec, rec *reqRec) []b
 			req = rec.requirement(i, "deny")
 		}
 		if n.Kind == "l" {
-			b := brigodier.Literal(n.Name).Executes(&markCmd{i})
+			var b brigodier.LiteralNodeBuilder = brigodier.Literal(n.Name)
+			if !n.NoExec {
+				b = b.Executes(&markCmd{i})
+			}
 			if req != nil {
 				b = b.Requires(req)
 			}
@@ -358,7 +366,10 @@ func buildProxyTree(root *brigodier.RootCommandNode, s []nspec, rec *reqRec) []b
 			}
 			return b.Build()
 		}
-		b := brigodier.Argument(n.Name, brigodier.Bool).Executes(&markCmd{i})
+		var b brigodier.ArgumentNodeBuilder = brigodier.Argument(n.Name, brigodier.Bool)
+		if !n.NoExec {
+			b = b.Executes(&markCmd{i})
+		}
 		if req != nil {
 			b = b.Requires(req)
 		}
@@ -802,6 +813,24 @@ func runCase(cs caseSpec) (fails []fail, classes []string) {
 
 	// 2. every received node that is not a backend node must be a usable proxy node (at any depth, through redirects)
 	seen := map[brigodier.CommandNode]bool{}
+	nodeIdx := map[brigodier.CommandNode]int{}
+	// identify: which proxy node is c a copy of? By its marker command, or - for group nodes without an executor -
+	// by name under the expected parent.
+	identify := func(c brigodier.CommandNode, parentSpec int) (int, bool) {
+		if m, ok := c.Command().(*markCmd); ok {
+			nodeIdx[c] = m.idx
+			return m.idx, true
+		}
+		if c.Command() == nil {
+			for j, sp := range s {
+				if sp.NoExec && sp.Parent == parentSpec && sp.Name == c.Name() {
+					nodeIdx[c] = j
+					return j, true
+				}
+			}
+		}
+		return 0, false
+	}
 	var walk func(n brigodier.CommandNode, path string)
 	walkChildren := func(n brigodier.CommandNode, specIdx int, path string) {
 		present := map[int]bool{}
@@ -815,15 +844,15 @@ func runCase(cs caseSpec) (fails []fail, classes []string) {
 				}
 				return true
 			}
-			m, ok := c.Command().(*markCmd)
+			ci, ok := identify(c, specIdx)
 			if !ok {
 				bad("unknown-node", "%s: child %q is neither a backend node nor a copy of a proxy node", path, c.Name())
 				return true
 			}
-			if s[m.idx].Parent != specIdx {
-				bad("proxy-node-misplaced", "%s: proxy node %d (%s) appears under the wrong parent", path, m.idx, s[m.idx].Name)
+			if s[ci].Parent != specIdx {
+				bad("proxy-node-misplaced", "%s: proxy node %d (%s) appears under the wrong parent", path, ci, s[ci].Name)
 			}
-			present[m.idx] = true
+			present[ci] = true
 			walk(c, path+"/"+c.Name())
 			return true
 		})
@@ -842,9 +871,13 @@ func runCase(cs caseSpec) (fails []fail, classes []string) {
 			walkChildren(n, -1, path)
 			return
 		}
-		m := n.Command().(*markCmd)
+		ni, known := nodeIdx[n]
+		if !known {
+			ni = n.Command().(*markCmd).idx // redirect targets always carry a marker
+		}
+		m := &markCmd{ni}
 		sp := s[m.idx]
-		if n.Name() != sp.Name || (sp.Kind == "l") != isLiteral(n) {
+		if n.Name() != sp.Name || (sp.Kind == "l") != isLiteral(n) || (n.Command() == nil) != sp.NoExec {
 			bad("proxy-node-altered", "%s: node %d received as %T %q, is %s %q", path, m.idx, n, n.Name(), sp.Kind, sp.Name)
 		}
 		if !usable(s, m.idx) {
@@ -880,13 +913,13 @@ func runCase(cs caseSpec) (fails []fail, classes []string) {
 		if bt.all[n] {
 			return true
 		}
-		m, ok := n.Command().(*markCmd)
+		ti, ok := identify(n, -1)
 		if !ok {
 			bad("unknown-node", "root child %q is neither a backend node nor a copy of a proxy node", name)
 			return true
 		}
-		if s[m.idx].Parent != -1 {
-			bad("proxy-node-misplaced", "nested proxy node %d (%s) appears at top level", m.idx, s[m.idx].Name)
+		if s[ti].Parent != -1 {
+			bad("proxy-node-misplaced", "nested proxy node %d (%s) appears at top level", ti, s[ti].Name)
 		}
 		walk(n, "/"+name)
 		return true
@@ -911,6 +944,10 @@ func caseClasses(cs caseSpec) []string {
 	for _, n := range s {
 		if n.Alias {
 			cl = append(cl, "alias-shares-children")
+		}
+		if n.NoExec {
+			cl = append(cl, "group-node-without-executor")
+			break
 		}
 	}
 	tops, denTop, denNested, hidden, redirs := 0, 0, 0, 0, 0
@@ -976,6 +1013,28 @@ func forEachExtraCase(thorough bool, f func(cs caseSpec)) {
 			}
 		}
 	}
+	// (3) group nodes: every tree of the family WITHOUT redirects in which some node has children, with every such
+	// node being a pure group (no executor of its own - "has an executor" is the other optional attribute a node
+	// builder copies besides requirement and redirect); every backend variant.
+	forEachProxyTree(thorough, func(t []nspec) {
+		grp := append([]nspec(nil), t...)
+		any := false
+		for i := range grp {
+			if grp[i].Redir != -1 {
+				return
+			}
+			if hasChildren(grp, i) {
+				grp[i].NoExec = true
+				any = true
+			}
+		}
+		if !any {
+			return
+		}
+		for b := 0; b < nBackends; b++ {
+			f(caseSpec{Proxy: grp, Backend: b})
+		}
+	})
 	// (2) an earlier merge on the same Proxy: every tree of the tier's family with <= 4 (thorough: 5) nodes,
 	// backend variants 0 and 5, every prior.
 	maxNodes := 4
